@@ -10,6 +10,29 @@ sys.path.insert(0, os.path.dirname(os.path.abspath(__file__)))
 import common  # noqa: E402
 
 
+def run_corpus(chk, pid):
+    """corpus first: the minimised witnesses of the defects found so far (corpus/regressions/<cxx>_*.py,
+    exit 0 = property holds on the witness) run against the tree under check before anything random;
+    a 'fixed' finding that returns is reported like any other violation, with the witness as replay."""
+    import glob
+    import subprocess
+    d = os.path.join(os.path.dirname(os.path.dirname(os.path.abspath(__file__))), "corpus", "regressions")
+    ran = []
+    for f in sorted(glob.glob(os.path.join(d, pid.lower() + "_*.py"))):
+        env = dict(os.environ, PYTHONHASHSEED="0")
+        try:
+            r = subprocess.run([sys.executable, f], env=env, capture_output=True, text=True, timeout=900)
+            rc, out = r.returncode, (r.stdout + r.stderr)[-800:]
+        except subprocess.TimeoutExpired:
+            rc, out = -1, "timeout"
+        ran.append(os.path.basename(f))
+        if rc != 0:
+            chk.violation(f"regression witness {os.path.basename(f)} fails again: " +
+                          " | ".join(x for x in out.strip().splitlines()[-3:] if "conda" not in x),
+                          {"kind": "regression_witness", "script": f, "exit": rc, "output": out})
+    chk.cov["regression_witnesses"] = ran
+
+
 def main():
     ap = argparse.ArgumentParser()
     ap.add_argument("pid")
@@ -24,12 +47,17 @@ def main():
     chk = common.Check(a.pid, tier, seed, level=getattr(mod, "LEVEL", "proof"))
     if a.replay:
         obj = json.load(open(a.replay))
-        ok = mod.replay(chk, obj)
+        if obj.get("kind") == "regression_witness":
+            import subprocess
+            ok = subprocess.run([sys.executable, obj["script"]]).returncode == 0
+        else:
+            ok = mod.replay(chk, obj)
         print("REPLAY", "property holds on this case" if ok else "VIOLATION reproduced")
         sys.exit(0 if ok else 1)
     chk.obligations(getattr(mod, "PROP_FILE", a.pid))
     if tier == "thorough" and os.environ.get("VERIF_SKIP_COQCHK") != "1":
         chk.coqchk(getattr(mod, "PROP_FILE", a.pid))
+    run_corpus(chk, a.pid)
     try:
         mod.run(chk)
     except Exception:
